@@ -1,7 +1,5 @@
-(* Witnesses for C12: the toy engine satisfies the engine facts (non-vacuity); with the REAL
-   engine model (Engine/Instance.v) a stop-with-DISCONNECT requested during the CONNECT/CONNACK
-   handshake never stops the client (D13), for both drivers and for every number of further
-   healthy loop iterations; a huge connect_timeout kills the loop by panic (D10b). *)
+(* Witnesses for C12: the toy engine satisfies the engine facts (non-vacuity); with the REAL engine model
+   (Engine/Instance.v) the former D13 / D10b counterexamples now behave (regression theorems, fixes d52fbbc / 8daf4ff). *)
 From GM Require Import Base.Prelude Base.Outcome Codec.Packets Engine.Model Engine.Instance
   Client.Backoff Client.Impl Client.Driver Client.MiniEngine Client.ImplEngine ClientProofs.ImplP.
 Open Scope N_scope.
@@ -22,54 +20,32 @@ Proof.
   - intros [[] []] now f; reflexivity.
 Qed.
 
-(* ---- D13 ---- *)
-Notation d13_state thr := (i_drun w_cfg thr w_init w_d13_prefix).
+(* ---- D13 (fixed by d52fbbc): the former counterexample, on the engine model, for both drivers:
+   a stop-with-DISCONNECT requested during the CONNECT/CONNACK handshake now stops the client at the next check;
+   no DISCONNECT is waited for, the attempt is reported as failed, one Stopped event ---- *)
+Theorem stop_during_handshake_stops : forall thr,
+  cur (i_drun w_cfg thr w_init w_d13_prefix) = CStopped /\
+  d_status (i_drun w_cfg thr w_init w_d13_prefix) = Running /\
+  c_stop (d_c (i_drun w_cfg thr w_init w_d13_prefix)) = SNone /\
+  d_log (i_drun w_cfg thr w_init w_d13_prefix) = [EvAttempt; EvFailure EUserInitiatedDisconnect false; EvStopped].
+Proof. intros []; vm_compute; repeat split; reflexivity. Qed.
 
-Lemma d13_state_facts thr :
-  cur (d13_state thr) = CConnected /\ d_status (d13_state thr) = Running /\
-  c_des (d_c (d13_state thr)) = CStopped /\ c_stop (d_c (d13_state thr)) = SDisc /\
-  ie_tag (c_eng (d_c (d13_state thr))) = TConnected /\
-  d_log (d13_state thr) = [EvAttempt; EvSuccess] /\
-  d_wire (d13_state thr) = [16; 15; 0; 4; 77; 81; 84; 84; 5; 2; 0; 0; 0; 0; 2; 97; 97].
-Proof. destruct thr; vm_compute; repeat split; reflexivity. Qed.
-
-Lemma d13_idle_fixpoint thr : i_drun w_cfg thr (d13_state thr) (w_idle 1) = d13_state thr.
-Proof. destruct thr; vm_compute; reflexivity. Qed.
-
-Lemma i_drun_app thr s h1 h2 : i_drun w_cfg thr s (h1 ++ h2) = i_drun w_cfg thr (i_drun w_cfg thr s h1) h2.
-Proof. unfold i_drun. revert s. induction h1 as [|[now e] h1 IH]; intros s; cbn; auto. Qed.
-
-Lemma w_idle_S n : w_idle (S n) = w_idle 1 ++ w_idle n.
-Proof. reflexivity. Qed.
-
-Lemma d13_forever thr n : i_drun w_cfg thr (d13_state thr) (w_idle n) = d13_state thr.
-Proof.
-  induction n as [|n IH]; [reflexivity|].
-  rewrite w_idle_S, i_drun_app, d13_idle_fixpoint. exact IH.
-Qed.
-
-(* the stop request is never honoured: whatever the number of further healthy iterations, the client is
-   Connected, desires Stopped, has emitted no Stopped event and has written nothing but the CONNECT *)
-Theorem stop_stops_refuted : forall thr n,
-  cur (i_drun w_cfg thr w_init (w_d13_prefix ++ w_idle n)) = CConnected /\
-  d_status (i_drun w_cfg thr w_init (w_d13_prefix ++ w_idle n)) = Running /\
-  c_des (d_c (i_drun w_cfg thr w_init (w_d13_prefix ++ w_idle n))) = CStopped /\
-  count_stopped (d_log (i_drun w_cfg thr w_init (w_d13_prefix ++ w_idle n))) = 0%nat /\
-  d_log (i_drun w_cfg thr w_init (w_d13_prefix ++ w_idle n)) = [EvAttempt; EvSuccess] /\
-  d_wire (i_drun w_cfg thr w_init (w_d13_prefix ++ w_idle n)) = [16; 15; 0; 4; 77; 81; 84; 84; 5; 2; 0; 0; 0; 0; 2; 97; 97].
-Proof.
-  intros thr n. rewrite i_drun_app.
-  rewrite d13_forever.
-  destruct (d13_state_facts thr) as (A & B & C & _ & _ & F & G). rewrite F.
-  split; [exact A|]. split; [exact B|]. split; [exact C|]. split; [reflexivity|]. split; [reflexivity|exact G].
-Qed.
-
-(* ---- D10b: connect_timeout = Duration::MAX ---- *)
+(* ---- D10b (fixed by 8daf4ff): connect_timeout = Duration::MAX no longer kills the loop ---- *)
 Definition w_init_huge : idstate := i_dinit w_cfg Alias.Outbound.RNull w_backoff DMAX.
-Theorem loop_alive_refuted_huge_timeout :
-  d_status (i_drun w_cfg false w_init_huge [(0, DOp OpStart); (0, DConnOk)]) = Panicked /\
-  d_status (i_drun w_cfg true w_init_huge [(0, DOp OpStart); (0, DCheck)]) = Panicked.
-Proof. split; vm_compute; reflexivity. Qed.
+Theorem huge_timeout_ok :
+  d_status (i_drun w_cfg false w_init_huge [(0, DOp OpStart); (0, DConnOk)]) = Running /\
+  cur (i_drun w_cfg false w_init_huge [(0, DOp OpStart); (0, DConnOk)]) = CConnected /\
+  d_status (i_drun w_cfg true w_init_huge [(0, DOp OpStart); (0, DCheck); (0, DConnFail)]) = Running /\
+  cur (i_drun w_cfg true w_init_huge [(0, DOp OpStart); (0, DCheck); (0, DConnFail)]) = CPendingReconnect.
+Proof. vm_compute. repeat split; reflexivity. Qed.
+
+(* the saturating addition is total as long as the clock itself is 2^32 s away from the end of the Instant range *)
+Lemma add_saturating_total site t d : t + U32S <= IMAX -> exists r, add_saturating site t d = Ok r.
+Proof.
+  intros H. unfold add_saturating, add_instant.
+  destruct (IMAX <? t + d) eqn:E1; [|eauto].
+  destruct (IMAX <? t + U32S) eqn:E2; [apply N.ltb_lt in E2; lia|eauto].
+Qed.
 
 (* ---- non-vacuity: with the toy engine a stop-with-DISCONNECT on an ESTABLISHED connection stops ---- *)
 Example stop_with_disconnect_established :
